@@ -518,9 +518,20 @@ func insert(ep string, w any, early *any) (h holder, container any) {
 		l.Insert(1, w)
 		return holder{l: l, idx: 1}, l
 	case "Replace":
-		l := at.NewList("pad", "old")
+		// the slots written over hold containers that are also stored elsewhere: overwriting a slot must not touch them
+		prevL, prevO := at.NewList(1, 2), at.NewObject("p", 1)
+		keeper := at.NewList(prevL, prevO)
+		l := at.NewList("pad", prevL, prevO, "old")
 		*early = l
+		l.Replace(3, w)
+		l.Replace(2, w)
 		l.Replace(1, w)
+		if prevL.String() != "[1,2]" || prevO.String() != `{"p":1}` || keeper.Get(0) != any(prevL) || keeper.Get(1) != any(prevO) {
+			panic(fmt.Sprintf("verif: Replace over a slot that held a container changed that container (now %s and %s)", prevL.String(), prevO.String()))
+		}
+		if l.Get(1) == any(prevL) || l.Get(2) == any(prevO) {
+			panic("verif: Replace kept the container that was in the slot instead of storing the new value")
+		}
 		return holder{l: l, idx: 1}, l
 	case "SetTF(list)":
 		l := at.NewList("pad")
@@ -538,9 +549,18 @@ func insert(ep string, w any, early *any) (h holder, container any) {
 		o := at.NewObjectFrom(map[string]any{"pad": 0, "v": w})
 		return holder{o: o, key: "v"}, o
 	case "Set":
-		o := at.NewObject("v", "old")
+		prevL, prevO := at.NewList(1, 2), at.NewObject("p", 1)
+		keeper := at.NewList(prevL, prevO)
+		o := at.NewObject("v", prevO, "u", prevL, "t", "old")
 		*early = o
+		o.Set("t", w, "u", w)
 		o.Set("v", w)
+		if prevL.String() != "[1,2]" || prevO.String() != `{"p":1}` || keeper.Get(0) != any(prevL) || keeper.Get(1) != any(prevO) {
+			panic(fmt.Sprintf("verif: Set over a field that held a container changed that container (now %s and %s)", prevL.String(), prevO.String()))
+		}
+		if o.Get("v") == any(prevO) || o.Get("u") == any(prevL) {
+			panic("verif: Set kept the container that was in the field instead of storing the new value")
+		}
 		return holder{o: o, key: "v"}, o
 	case "SetTF(object)":
 		o := at.NewObject()
